@@ -165,7 +165,7 @@ func BuildCTable(raws []json.RawMessage) (*CTable, error) {
 // CParams are the concrete choices the model leaves open.
 type CParams struct {
 	Salt   int    `json:"salt"`
-	Slow   bool   `json:"slow"`   // long waits (second run of a difference)
+	Level  int    `json:"level"`  // 0 normal waits, 1 long (second run of a difference), 2 very long (third run)
 	Policy string `json:"policy"` // "never" | "claim"
 }
 
@@ -186,9 +186,12 @@ type timing struct {
 	settle, hold time.Duration
 }
 
-func timingFor(slow bool) timing {
-	if slow {
+func timingFor(level int) timing {
+	switch level {
+	case 1:
 		return timing{tLive: 3 * time.Second, tCtx: 12 * time.Second, cancelAt: 150 * time.Millisecond, settle: 10 * time.Second, hold: 200 * time.Millisecond}
+	case 2: // a machine on which this still looks wrong is not merely slow
+		return timing{tLive: 30 * time.Second, tCtx: 60 * time.Second, cancelAt: 150 * time.Millisecond, settle: 40 * time.Second, hold: 500 * time.Millisecond}
 	}
 	return timing{tLive: 700 * time.Millisecond, tCtx: 2500 * time.Millisecond, cancelAt: 100 * time.Millisecond, settle: 2 * time.Second, hold: 30 * time.Millisecond}
 }
@@ -207,6 +210,7 @@ type crun struct {
 
 	readDone chan error
 	negMatch int
+	panicked string
 }
 
 func (r *crun) address() string {
@@ -230,6 +234,15 @@ func (r *crun) address() string {
 		return "<" + r.peer.Addr + "?alias=verif.example&noUDP>"
 	}
 	return r.peer.Addr
+}
+
+func (r *crun) anyDialStall() bool {
+	for _, c := range r.sc.Calls {
+		if c.E == EnvDialStall {
+			return true
+		}
+	}
+	return false
 }
 
 // noteStream records a stream handed to the user.
@@ -284,12 +297,34 @@ func (r *crun) peerObs() string {
 	return fmt.Sprintf("open=[%s] leak=%d", b.String(), r.peer.Unmatched(r.known))
 }
 
+// blocks: does the model say the call waits for its context / the Timeout?  (a context is
+// only ended under a call that waits for it: ending it under a call that is merely slow on
+// a loaded machine would make the call fail where the model says it succeeds)
+func (r *crun) blocks(c Call) bool {
+	if c.E == EnvDialStall {
+		return true
+	}
+	if c.E == EnvStall && r.secC != nil && (r.sc.Route == "ccb" || c.C == "ca") {
+		return true
+	}
+	return false
+}
+
+// recovered turns a panic of the code under test into an outcome of the call.
+func (r *crun) recovered(done chan error) {
+	if p := recover(); p != nil {
+		r.panicked = fmt.Sprint(p)
+		done <- fmt.Errorf("PANIC: %v", p)
+	}
+}
+
 // do executes one call and returns (error, how it ended).
 func (r *crun) do(c Call) (error, string) {
 	T := r.tm.tLive
 	if c.X != "live" {
 		T = r.tm.tCtx
 	}
+	blocking := r.blocks(c)
 	ctx, cancel := context.Background(), context.CancelFunc(func() {})
 	switch c.X {
 	case "pre":
@@ -298,7 +333,11 @@ func (r *crun) do(c Call) (error, string) {
 	case "during":
 		ctx, cancel = context.WithCancel(context.Background())
 	case "deadline":
-		ctx, cancel = context.WithTimeout(context.Background(), r.tm.cancelAt)
+		d := r.tm.cancelAt
+		if !blocking {
+			d = 10 * T // far away: the call is expected to finish by itself
+		}
+		ctx, cancel = context.WithTimeout(context.Background(), d)
 	}
 	defer cancel()
 	t0 := time.Now()
@@ -306,13 +345,19 @@ func (r *crun) do(c Call) (error, string) {
 	switch c.C {
 	case "connect":
 		r.cfg.Timeout = T
-		go func() { done <- r.cl.Connect(ctx) }()
+		go func() {
+			defer r.recovered(done)
+			done <- r.cl.Connect(ctx)
+		}()
 	case "ca":
 		cfg := &client.ClientConfig{Address: r.address(), Timeout: T, Security: r.secC, ClientName: "verif-g07"}
 		go func() {
+			defer r.recovered(done)
 			var cl *client.HTCondorClient
 			var err error
-			if c.X == "live" && r.p.Salt&32 != 0 && c.E != EnvDialStall && !(r.sc.Route == "ccb") {
+			// (the plain form builds its own ClientConfig with the 30 s default Timeout: only for
+			// scripts in which nothing stalls a dial)
+			if c.X == "live" && r.p.Salt&32 != 0 && !r.anyDialStall() && !(r.sc.Route == "ccb") {
 				cl, err = client.ConnectAndAuthenticate(ctx, cfg.Address, cfg.Security)
 			} else {
 				cl, err = client.ConnectAndAuthenticateWithConfig(ctx, cfg)
@@ -324,14 +369,17 @@ func (r *crun) do(c Call) (error, string) {
 		}()
 	}
 	var err error
-	if c.X == "during" {
+	if c.X == "during" && blocking {
 		select {
 		case err = <-done:
-			cancel() // the usual `defer cancel()` of a caller: must not disturb what was returned
+			cancel()
 		case <-time.After(r.tm.cancelAt):
 			cancel()
 			err = <-done
 		}
+	} else if c.X == "during" {
+		err = <-done
+		cancel() // the usual `defer cancel()` of a caller: must not disturb what was returned
 	} else {
 		err = <-done
 	}
@@ -359,7 +407,7 @@ func RunC(t *CTable, sc CScript, p CParams) *CResult {
 	}
 	defer peer.Shutdown()
 	peer.SharedFront = sc.Route == "shared"
-	r := &crun{sc: sc, p: p, tm: timingFor(p.Slow), peer: peer, known: map[int]bool{}}
+	r := &crun{sc: sc, p: p, tm: timingFor(p.Level), peer: peer, known: map[int]bool{}}
 	if sc.Sec == "sec" {
 		r.secC = peer.ClientSecurity()
 	}
@@ -439,6 +487,11 @@ func RunC(t *CTable, sc CScript, p CParams) *CResult {
 				}
 			}
 			e, by := r.do(c)
+			if r.panicked != "" {
+				res.Observed = append(res.Observed, "panic")
+				res.Diff, res.DiffStep = "the call panicked: "+r.panicked, i
+				return res
+			}
 			r.noteStream()
 			local = r.localObs(e, by)
 		}
